@@ -263,6 +263,16 @@ def k6(ctx):
                   'namespace' in (member_path(cn.ast.call_base()) or '')]
         okg = bool(guards) and cfg.dominates(guards[0].idx, nn) and \
             nn not in cfg.forward_reachable([w for (w, lab) in cfg.succ[guards[0].idx] if lab is True])
+        # ... and for *every* non-empty namespace: from the non-empty edge each path to a return
+        # passes the namespace-map lookup (no extra condition may skip it)
+        if guards:
+            ne = [w for (w, lab) in cfg.succ[guards[0].idx] if lab is False]
+            skipped = cfg.exit.idx in cfg.reachable_from(ne, None, {nn})
+            ctx.check('Lookup/named-always-with-namespace', not skipped,
+                      '%s: with a non-empty namespace the namespace map is always consulted' % inst(f),
+                      '%s: with a non-empty namespace a path returns without consulting the '
+                      'namespace map (an additional condition short-cuts it): a type registered in '
+                      'that namespace can be treated as unregistered' % inst(f), named[0].loc)
         ctx.check('Lookup/named-only-with-namespace', okg,
                   '%s: the namespace map is consulted only for a non-empty namespace' % inst(f),
                   '%s: the namespace map is consulted for the empty (global) namespace too' % inst(f),
